@@ -242,9 +242,20 @@ var _ rpc.Resources
 //@   ensures[C14,C17] httpstatus == 404 && httpwrites == old(httpwrites) + 1
 //@   safety[C15]
 
+// httpStatusResponse (a service-supplied status within 300-599): exactly one header write with
+// that status; a redirect gets no body and a Location header only if the service supplied none;
+// any other status gets exactly one body. Service headers go through MergeHeader before the
+// status is written, and the Content-Type of an error body is set after them.
 //@ func httpStatusResponse
-//@   trusted
-//@   requires w != nil
+//@   requires w != nil && enc != nil && (err != nil ==> reserr.predErrOK(err))
+//@   ensures[C17] httpstatus == status && httpwrites == old(httpwrites) + 1
+//@   ensures[C17] 300 <= status && status < 400 ==> httpbodies == old(httpbodies)
+//@   ensures[C17] !(300 <= status && status < 400) ==> httpbodies == old(httpbodies) + 1
+//@   assert[C17] codec.MergeHeader#1: httpwrites == old(httpwrites) && arg1 == header
+//@   assert[C17] codec.MergeHeader#2: httpwrites == old(httpwrites) && arg1 == header
+//@   assert[C17] w.Header().Set#1: href != "" && !has(header, "Location") && arg0 == "Location" && arg1 == href
+//@   assert[C17] w.Header().Set#2: arg0 == "Content-Type" && callcount("MergeHeader") == old(callcount("MergeHeader")) + 1 && httpwrites == old(httpwrites)
+//@   safety[C15]
 
 //@ immutable Service.enc
 
@@ -700,9 +711,32 @@ var _ rpc.Resources
 //@   resolves[C07] cb exactly-once
 //@   safety[C15]
 
+// collectRefs: the countdown is handed to every reference that is neither ready nor already part
+// of it, then counted down once for this resource and tested once.
 //@ func (*Subscription).collectRefs
-//@   trusted
-//@   requires s != nil
+//@   requires s != nil && rcb != nil && rcb.refMap != nil
+//@   assumes predRefsOK()
+//@   ensures[C07] callcount("testReady") == old(callcount("testReady")) + 1
+//@   assert[C07] ref.sub.onLoaded#1: arg0 == rcb && ref.sub.state < stateReady && !(has(rcb.refMap, rid) && rcb.refMap[rid])
+//@   assert[C07] s.testReady#1: arg0 == rcb
+//@   safety[C15]
+//@   loop 1 let M = s.refs
+//@   loop 1 assume rcb.refMap != nil && (forall a string :: has(M, a) ==> M[a] != nil && M[a].sub != nil)
+//@   loop 1 invariant callcount("testReady") == old(callcount("testReady"))
+
+// onLoaded: the resource joins the countdown (marked in its reference map, one more to wait
+// for); a resource that is not loaded yet keeps the countdown in its waiting list, a loaded one
+// passes it on to its references at once.
+//@ func (*Subscription).onLoaded
+//@   requires s != nil && rcb != nil && rcb.refMap != nil
+//@   assumes predRefsOK()
+//@   ensures[C07] old(s.state) < stateLoaded ==> rcb.loading == old(rcb.loading) + 1 && has(rcb.refMap, s.rid) && rcb.refMap[s.rid] &&
+//@       len(s.readyCallbacks) == old(len(s.readyCallbacks)) + 1 && s.readyCallbacks[len(s.readyCallbacks)-1] == rcb &&
+//@       (forall k int :: 0 <= k && k < old(len(s.readyCallbacks)) ==> s.readyCallbacks[k] == old(s.readyCallbacks[k])) &&
+//@       invoked() == old(invoked()) && callcount("collectRefs") == old(callcount("collectRefs"))
+//@   ensures[C07] old(s.state) >= stateLoaded ==> callcount("collectRefs") == old(callcount("collectRefs")) + 1
+//@   assert[C07] s.collectRefs#1: arg0 == rcb && rcb.loading == old(rcb.loading) + 1 && has(rcb.refMap, s.rid) && rcb.refMap[s.rid]
+//@   safety[C15]
 
 //@ func (*Subscription).OnReady
 //@   requires s != nil
